@@ -206,7 +206,7 @@ def cases(ctx):
                 sa = ['Q', [0.0, 0.0], [L / 2, wig], [L, 0.0]]
             x0 = L * rng.uniform(0.3, 0.7)
             half = L * 10.0 ** rng.uniform(-3, -1.4)          # half distance between the crossings
-            W = L * rng.uniform(0.15, 0.3)
+            W = half * rng.uniform(2, 5)       # a small, tightly curved B: the crossings are transversal, close on A, far apart on B
             depth = rng.uniform(0.3, 1.0)
             # parabola y = c*((x-x0)^2 - half^2), c chosen so that the ends are at height depth*W
             c = depth * W / (W * W - half * half)
